@@ -30,7 +30,10 @@ PROPERTY = {
                    "returns the written value (truncated to the bit width for bits); (3) indexing a sized array outside "
                    "[-len, len) raises IndexError and changes nothing; (4) raw() / bytes() of a view equal the memory of its "
                    "extent and memset fills exactly the extent. Bounded: exploration, not proof.",
-    "rule": "one case = one generated root type: layout + 40 random accesses",
+    "rule": "one case = one generated root type: layout + 40 random accesses; plus, DEDUCTIVE (pyvc + z3, all array lengths and "
+            "indices, element sizes 1 2 4 8): Array._normalize_idx / _check_bounds accept exactly -len <= idx < len, return the "
+            "index in [0, len), and get_offset of it lies inside the array; shape-bounded SYMBOLIC: Bits.set / get change exactly the "
+            "field's bits of the backing number to the truncated value, for all stored numbers and written values (10 shapes)",
     "trusted_base": ["CPython executes the real classes; the memory is a Python byte array with get_mem / set_mem (the VmMngr "
                      "contract itself is C24); layout, serialisation and comparisons are written independently in props/C34.py"],
     "assumptions": ["seeded family of props/C34.py (600 quick / 6000 thorough root types)", "Self / MemSelf recursion and the global "
@@ -433,6 +436,101 @@ class TypeCases(BoundedContract):
         return (True, "", True)
 
 
+# ---------------------------------------------------------------------------------------------------------------------------------
+# Deductive layer (pyvc, unbounded): index normalisation and bounds of sized arrays, for ALL lengths and indices
+
+def _mk_index_target(fmt):
+    def body(ctx):
+        from vc.terms import And, Or
+        n = ctx.int("array_len", 1, None, rnd_hi=40)
+        idx = ctx.int("idx", None, None, rnd_hi=60)
+        arr = T.Array(T.Num(fmt), n)
+        esize = struct.calcsize(fmt)
+        inside = And(idx >= -n, idx < n)
+        r = ctx.call(T.Array._normalize_idx, arr, idx)
+        if ctx.decide(inside):
+            if r.raised:
+                ctx.check("accepts-valid-index", False, kind="no-raise")
+                return
+            ctx.cover("accepted")
+            ctx.check("normalised-in-range", And(r.value >= 0, r.value < n))
+            ctx.check("normalised-value", Or(And(idx >= 0, r.value == idx), And(idx < 0, r.value == n + idx)))
+            off = ctx.call(T.Array.get_offset, arr, r.value)
+            if not off.raised:
+                ctx.check("offset-inside-array", And(off.value == esize * r.value, off.value + esize <= esize * n))
+        else:
+            ctx.cover("rejected")
+            ctx.check("rejects-out-of-bounds", r.raised and isinstance(r.exc, IndexError), kind="raises-post")
+    return body
+
+
+class _Cell(object):
+    """memory cell of the backing number (the vm argument of Bits.set / get)"""
+    def __init__(self, value):
+        self.value = value
+
+    def __repr__(self):
+        return "<cell>"
+
+
+class _CellNum(T.Num):
+    """a Num whose get / set read and write the cell: the contract of Num.get / Num.set (struct round trip of an in-range value) is
+    what the bounded layer checks; here only the bit arithmetic of Bits is under proof"""
+    def __init__(self, nbytes):
+        super(_CellNum, self).__init__({1: "<B", 2: "<H", 4: "<I", 8: "<Q"}[nbytes])
+
+    def get(self, vm, addr):
+        return vm.value
+
+    def set(self, vm, addr, val):
+        vm.value = val
+
+    def __repr__(self):
+        return "<cell num>"
+
+
+def _mk_bits_target(nbytes, bits, off):
+    def body(ctx):
+        from vc.terms import And
+        total = 8 * nbytes
+        old = ctx.int("cell", 0, (1 << total) - 1)
+        val = ctx.int("val", 0, (1 << (total + 8)) - 1)         # wider than the field and than the backing number
+        cell = _Cell(old)
+        f = T.Bits(_CellNum(nbytes), bits, off)
+        r = ctx.call(T.Bits.set, f, cell, 0x1000, val)
+        if r.raised:
+            ctx.check("no-raise", False, kind="no-raise")
+            return
+        ctx.cover("ret")
+        new = cell.value
+        mask = ((1 << bits) - 1) << off
+        ctx.check("stays-in-the-backing-number", And(new >= 0, new < (1 << total)))
+        ctx.check("field-holds-the-truncated-value", (new // (1 << off)) % (1 << bits) == val % (1 << bits))
+        ctx.check("bits-below-unchanged", new % (1 << off) == old % (1 << off))
+        ctx.check("bits-above-unchanged", new // (1 << (off + bits)) == old // (1 << (off + bits)))
+        g = ctx.call(T.Bits.get, f, cell, 0x1000)
+        if not g.raised:
+            ctx.check("reads-back", g.value == val % (1 << bits))
+    return body
+
+
+def proof_targets():
+    from harness.core import Target
+    ts = []
+    for nbytes, bits, off in ((1, 1, 0), (1, 3, 2), (1, 2, 6), (2, 5, 3), (2, 16, 0), (4, 7, 25), (4, 12, 10), (8, 1, 63), (8, 33, 17), (8, 64, 0)):
+        t = Target("C34/Bits.set-get/num=%d,bits=%d,offset=%d" % (8 * nbytes, bits, off), [T.Bits.set, T.Bits.get], _mk_bits_target(nbytes, bits, off),
+                   kind="bounded", bound="10 (width, bit count, bit offset) shapes; the stored number and the written value are symbolic",
+                   params={"num_bits": 8 * nbytes, "bits": bits, "offset": off})
+        t.expect_covers = ["ret"]
+        ts.append(t)
+    for fmt in ("<B", "<H", "<I", "<Q"):
+        t = Target("C34/Array.index-normalisation/%s" % fmt[1], [T.Array._normalize_idx, T.Array._check_bounds, T.Array.get_offset, T.Array.is_sized],
+                   _mk_index_target(fmt), params={"element": fmt})
+        t.expect_covers = ["accepted", "rejected"]
+        ts.append(t)
+    return ts
+
+
 def targets(tier):
-    return chunked(TypeCases, "C34/typed-views", 16, tier)
+    return proof_targets() + chunked(TypeCases, "C34/typed-views", 16, tier)
 
